@@ -172,6 +172,7 @@ func faPool(names, seqs []string) []faRec {
 }
 
 func runC01(r *core.Run) {
+	defer everyLength(r)
 	racePass(r, "race-format-fasta", "the fasta codec: readers each on their own stream (whole and in 7-byte reads, every corpus file), Write on shared records into separate destinations, File on one shared path; every result is compared with what the same call returned when it ran alone")
 	firstCallClause(r, "fasta.")
 	pool := faPool(enum.AllStrings("a>", 2), enum.AllStrings("AC", 3))
